@@ -68,6 +68,10 @@ func (f *Frame) instr(in ssa.Instruction, guard string, st *State) {
 		if at, ok := isArray(x.X.Type()); ok {
 			f.rtCheck("index", x, guard, fmt.Sprintf("(and (<= 0 %s) (< %s %d))", iv.T, iv.T, at.Len()), describe(x))
 			f.bind(x, fmt.Sprintf("(select %s %s)", xv.T, iv.T))
+		} else if isString(x.X.Type()) {
+			// s[i] on a string (go/ssa uses Index for strings as well as arrays)
+			f.rtCheck("index", x, guard, fmt.Sprintf("(and (<= 0 %s) (< %s (slen %s)))", iv.T, iv.T, xv.T), describe(x))
+			f.bind(x, fmt.Sprintf("(sat %s %s)", xv.T, iv.T))
 		} else {
 			f.set(x, f.freshVal(x.Name(), x.Type()))
 		}
